@@ -426,3 +426,74 @@ pub fn many_labels_family() -> Vec<Content> {
     }
     v
 }
+
+/// Pairs of names that collide under common 32-bit string hashes (`vcore::collide`), and pairs
+/// in a suffix relation, each as two labels / two strings / two c-strings of one archive.
+pub fn pair_family() -> Vec<Content> {
+    let mut pairs: Vec<(String, String)> = vcore::collide::pairs().iter().map(|(_, a, b)| (a.clone(), b.clone())).collect();
+    pairs.extend(vcore::sjis::suffix_pairs());
+    pairs.extend(vcore::sjis::suffix_pairs().into_iter().map(|(a, b)| (b, a)));
+    let mut v = Vec::new();
+    for e in [End::Little, End::Big] {
+        for (a, b) in &pairs {
+            let mut c = Content::new(e);
+            c.data = vec![0; 16];
+            c.strings.insert(0, a.clone());
+            c.strings.insert(4, b.clone());
+            c.cstrings.insert(8, a.clone());
+            c.cstrings.insert(12, b.clone());
+            c.labels.insert(0, vec![a.clone()]);
+            c.labels.insert(4, vec![b.clone(), format!("{}{}", a, b)]);
+            v.push(c.clone());
+            // the pair as label names only / as strings only (no sharing between the roles)
+            let mut l = Content::new(e);
+            l.data = vec![0; 8];
+            l.labels.insert(0, vec![b.clone()]);
+            l.labels.insert(8, vec![a.clone()]);
+            v.push(l);
+            let mut s = Content::new(e);
+            s.data = vec![0; 8];
+            s.strings.insert(0, b.clone());
+            s.strings.insert(4, a.clone());
+            v.push(s);
+        }
+    }
+    v
+}
+
+/// EVERY character of the lossless Shift-JIS domain (7 517) in every string role.
+pub fn domain_family() -> Vec<Content> {
+    let mut v = Vec::new();
+    for e in [End::Little, End::Big] {
+        for ch in vcore::sjis::domain() {
+            let s = ch.to_string();
+            let mut c = Content::new(e);
+            c.data = vec![0; 8];
+            c.strings.insert(0, format!("{}x", s));
+            c.cstrings.insert(4, format!("a{}", s));
+            c.labels.insert(0, vec![s.clone()]);
+            v.push(c);
+        }
+    }
+    v
+}
+
+/// Archives whose total FILE size is one whose little- and big-endian 32-bit encodings
+/// coincide (0x00010100 = 65 792 and twice that): a reader that guesses the byte order from the
+/// size word cannot tell. Also the sizes next to it.
+pub fn palindromic_size_family() -> Vec<Content> {
+    let mut v = Vec::new();
+    for e in [End::Little, End::Big] {
+        for total in [0x10100usize - 4, 0x10100, 0x10100 + 4, 0x20200] {
+            // file = 0x20 header + data + 4 (one pointer) + 8 (one label) + text ("L\0" + "s\0" = 4)
+            let data = total - 0x20 - 4 - 8 - 4;
+            let mut c = Content::new(e);
+            c.data = (0..data).map(|i| (i as u8).wrapping_mul(31).wrapping_add(7)).collect();
+            c.data[0..4].copy_from_slice(&[0; 4]);
+            c.strings.insert(0, "s".into());
+            c.labels.insert(4, vec!["L".into()]);
+            v.push(c);
+        }
+    }
+    v
+}
